@@ -665,10 +665,11 @@ class C08(Prop):
         base = ctx.rng.randrange(1 << 20)
         self._race_sweep(ctx, res, [base + i for i in range(ctx.scale(16, 40))])
         # targeted schedules for the stale removal notice (removal + re-creation in one thread racing with unsubscribe +
-        # subscribe in another): fixed seeds first (the window is hit by about 1.5% of the weighted schedules), then seeded ones
+        # subscribe in another): fixed seeds first (the window is hit by about 1% of the weighted schedules: 13 of the seeds
+        # 0..1499 on the tree without a22664f, the first at 340), then seeded ones
         n0 = len(res.failures)
-        for lo in range(0, ctx.scale(96, 400), 32):
-            self._run_batch(ctx, [(s, STALE_SPEC, None, False) for s in range(lo, lo + 32)], res, "stale_notice")
+        for lo in range(0, ctx.scale(640, 2048), 64):
+            self._run_batch(ctx, [(s, STALE_SPEC, None, False) for s in range(lo, lo + 64)], res, "stale_notice")
             if len(res.failures) > n0:
                 break
         else:
